@@ -693,7 +693,7 @@ func (rw *rewriter) insertYields() {
 		var out []ast.Stmt
 		for _, s := range list {
 			switch s.(type) {
-			case *ast.DeclStmt, *ast.EmptyStmt:
+			case *ast.DeclStmt, *ast.EmptyStmt, *ast.CaseClause, *ast.CommClause:
 			default:
 				out = append(out, yield())
 			}
